@@ -48,6 +48,8 @@ def spec_for(tschema, d, required, use_const=False):
     m = dict(tschema)
     if "$ref" in m:
         m = {"allOf": [tschema], "default": d}
+    elif use_const == "single":
+        m["enum"] = [d]
     elif use_const:
         m["const"] = d
     else:
@@ -119,8 +121,11 @@ def main(tier, seed, replay=None):
                 for builders in (False, True):
                     cases.append({"type": key, "tschema": tsch, "prim": prim, "kind": kind, "d": d, "required": required, "builders": builders, "const": False})
     for d in ("fixed", 5):
-        cases.append({"type": "string" if isinstance(d, str) else "int", "tschema": {"type": "string"} if isinstance(d, str) else {"type": "integer"},
-                      "prim": "string" if isinstance(d, str) else "i64", "kind": "str" if isinstance(d, str) else "int", "d": d, "required": False, "builders": False, "const": True})
+        for required in (False, True):
+            for how in (True, "single"):
+                # const / single-value enum, also as the ONLY value-carrying member and required
+                cases.append({"type": "string" if isinstance(d, str) else "int", "tschema": {"type": "string"} if isinstance(d, str) else {"type": "integer"},
+                              "prim": "string" if isinstance(d, str) else "i64", "kind": "str" if isinstance(d, str) else "int", "d": d, "required": required, "builders": False, "const": how})
     cases.append({"type": "int8", "tschema": {"type": "integer", "format": "int8"}, "prim": "i8", "kind": "int", "d": 300, "required": False, "builders": False, "const": False})
     if replay:
         cases = [json.load(open(replay))["case"]]
@@ -136,7 +141,13 @@ def main(tier, seed, replay=None):
     outs = vlib.pmap(one, range(len(cases)))
     dumps = vlib.vtool_lines("dump", [o[2] for o in outs])
     dis, viol, known_hits = [], [], set()
-    mq = [f"{vtok(c['d'])} {c['prim']} 1" for c in cases]
+    def is_opt(dump):
+        try:
+            return (read_default_attr(dump)[1] or "Option<").replace(" ", "").startswith("Option<")
+        except Exception:
+            return True
+    # the Option wrapper follows the emitted member type (required const / single-value members are not optional)
+    mq = [f"{vtok(c['d'])} {c['prim']} {1 if is_opt(dp) else 0}" for c, dp in zip(cases, dumps)]
     model = vlib.run_driver(exe, mq) if exe else None
     ar = arena.Arena("C17")
     for i, (c, (rc, txt, outp), dump) in enumerate(zip(cases, outs, dumps)):
@@ -221,7 +232,7 @@ fn main() {
                         viol.append((c, f"member {c['type']} default {d!r} required={c['required']}: {how} yields m={v!r}"))
     res.counts.update({"evaluations": len(cases), "distinct_nontrivial": n_obs, "traces_validated_against_impl": len(cases),
                        "exhaustive": True,
-                       "rule": "exhaustive over 11 member types x default values of every JSON type (matching, string-encoded, null) x {required, optional} x {builders on, off} (+ const, single-value, int8 overflow): #[default(..)] expression read back with syn vs the extracted coercion model; every case compiled in the arena and observed three ways: decode of {} , T::default(), T::builder().build()"})
+                       "rule": "exhaustive over 11 member types x default values of every JSON type (matching, string-encoded, null) x {required, optional} x {builders on, off} (+ const and single-value enum members, required and optional; int8 overflow): #[default(..)] expression read back with syn vs the extracted coercion model; every case compiled in the arena and observed three ways: decode of {} , T::default(), T::builder().build()"})
     for c in cases[:2] + cases[60:62]:
         res.sample({k: c[k] for k in ("type", "d", "required", "builders")})
     res.oblige(f"correspondence: model literal = emitted #[default(..)] on {len(cases)} members", not dis, dis[0] if dis else "")
